@@ -107,10 +107,29 @@ def judge(texts):
     if not shape_ok(cfg, shape):
         return dict(texts=texts, reason='the evaluated config does not mirror the merged tree (attribute dicts / lists / exact scalar types, same keys and order)',
                     tree=repr(shape)[:300], got=repr(cfg)[:300])
-    for kk in cfg:
-        if isinstance(kk, str) and kk.isidentifier() and not hasattr(Bunch, kk):
-            if getattr(cfg, kk) is not cfg[kk]:
-                return dict(texts=texts, reason='cfg.name is not cfg["name"]', key=kk)
+    def attr_access(m, where=()):
+        """every mapping of the result, at any depth: m.name is m['name'] for every key that is an identifier"""
+        if isinstance(m, dict):
+            for kk in m:
+                if isinstance(kk, str) and kk.isidentifier() and not hasattr(Bunch, kk):
+                    try:
+                        same = getattr(m, kk) is m[kk]
+                    except AttributeError:
+                        same = False
+                    if not same:
+                        return where + (kk,)
+                r = attr_access(m[kk], where + (kk,))
+                if r:
+                    return r
+        elif isinstance(m, list):
+            for i, a in enumerate(m):
+                r = attr_access(a, where + (i,))
+                if r:
+                    return r
+        return None
+    bad = attr_access(cfg)
+    if bad:
+        return dict(texts=texts, reason='cfg.name is not cfg["name"] (attribute access to a mapping entry)', key=[str(x) for x in bad])
     if fingerprint(root) != before or cfg.ayns.source is not root:
         return dict(texts=texts, reason='evaluating modified the merged source tree that the config keeps')
     # evaluating the source again gives an equal result
@@ -188,6 +207,27 @@ def judge_staged(case):
     return None
 
 
+SYMBOL_SCRIPT = '''
+T1 = %r
+b = Builder(); b.add_source(T1, raw_yaml=True, filename='a.yaml'); cfg1 = Config(b.build())
+first = plain(cfg1)
+b2 = Builder(); b2.add_source('{v: !eval "%s + 1", w: !fstr "x{%s}"}', raw_yaml=True, filename='b.yaml')
+other = plain(Config(b2.build(), eval_ctx=EvalContext(eval_symbols={%r: %d})))
+again = plain(Config(cfg1.ayns.source))
+third = plain(Config(cfg1.ayns.source, eval_ctx=EvalContext()))
+result = dict(first=first, other=other, again=again, third=third)
+'''
+
+
+def gen_symbol_case(rng):
+    """the kept source evaluated again AFTER an unrelated evaluation with private eval symbols that shadow one of its names"""
+    name = rng.choice(['scale', 'width', 'k'])
+    val, sym = rng.randint(2, 9), rng.randint(10, 99)
+    t1 = '{%s: %d, model: {w: !eval "%s * 2", name: !fstr "net-x{%s}", dims: [!eval "%s + 1", 2]}, z: 0}' % (name, val, name, name, name)
+    expect = {name: val, 'model': {'w': val * 2, 'name': 'net-x%d' % val, 'dims': [val + 1, 2]}, 'z': 0}
+    return dict(script=SYMBOL_SCRIPT % (t1, name, name, name, sym), expect=expect, other={'v': sym + 1, 'w': 'x%d' % sym})
+
+
 def gen_pydata(rng):
     def val(d):
         r = rng.random()
@@ -212,6 +252,24 @@ def run(rep, tier, rng):
         rep.case('\n'.join(t), any('{' in x[1:] for x in t), sample=t)
     base.run_oracle(rep, 'C11', 'no node in the result / shape / source untouched / re-evaluation / mutation isolation', inputs, judge)
     py = [gen_pydata(rng) for _ in range(200 if tier == 'quick' else 3000)]
+    under = [["{_target_: x, _meta_: {_k: 1, n: [{_steps_: 2}, 3]}, a: {_p: !call:vmod.u1 {x: 1}}}"], ["{m: {_a: 1}}", "{m: {_b: {_c: [1, {_d: 2}]}}}"]]
+    base.run_oracle(rep, 'C11', 'keys that start with an underscore', under, judge)
+    from .. import scenrun
+    sym = [gen_symbol_case(rng) for _ in range(12 if tier == 'quick' else 100)]
+    for c, r in zip(sym, scenrun.run_batch([dict(script=c['script']) for c in sym])):
+        c['res'] = r
+
+    def judge_sym(c):
+        r = c['res']
+        if r['kind'] != 'ok':
+            return dict(reason='the scenario failed / crashed', got=r['kind'], err=r.get('err'))
+        x = r['result']
+        if x['first'] != c['expect'] or x['other'] != c['other']:
+            return dict(reason='unexpected first evaluation', first=x['first'], other=x['other'], expected=c['expect'])
+        if x['again'] != x['first'] or x['third'] != x['first']:
+            return dict(reason='evaluating the kept source again (after an unrelated evaluation with private eval symbols) gives a different result', first=x['first'], again=x['again'], fresh_context=x['third'])
+        return None
+    base.run_oracle(rep, 'C11', 'the kept source re-evaluated after an unrelated evaluation with private eval symbols', sym, judge_sym, show=lambda c: dict(symbols=True, script=c['script']))
     base.run_oracle(rep, 'C11', 'configs built from Python data', py, judge_pydata, show=lambda d: dict(pydata=repr(d)))
     staged = []
     for _ in range(150 if tier == 'quick' else 2000):
@@ -225,6 +283,10 @@ def replay(data):
     r = data['replay']
     if 'input' in r:
         x = r['input']
+        if isinstance(x, dict) and x.get('symbols'):
+            from .. import scenrun
+            print('replay (run the script in a fresh interpreter):', scenrun.run_batch([dict(script=x['script'])])[0])
+            return 1
         if isinstance(x, dict) and x.get('staged'):
             f = judge_staged(x)
         elif isinstance(x, dict) and 'pydata' in x:
